@@ -119,8 +119,8 @@ def gen_optstr(rng):
     return s
 
 
-def build(ctx, optstr, crlf=False, own_lf=False, blanks=0, lead=0):
-    data, idx = _build(ctx, optstr, crlf, own_lf)
+def build(ctx, optstr, crlf=False, own_lf=False, blanks=0, lead=0, ws=b''):
+    data, idx = _build(ctx, optstr, crlf, own_lf, ws)
 
     if blanks:
         # a run of blank lines in front of the header in question (blank
@@ -141,11 +141,11 @@ def build(ctx, optstr, crlf=False, own_lf=False, blanks=0, lead=0):
     return data, idx
 
 
-def _build(ctx, optstr, crlf=False, own_lf=False):
+def _build(ctx, optstr, crlf=False, own_lf=False, ws=b''):
     """(file bytes, index of the damaged section).  own_lf: in a CRLF file
     the damaged header itself ends in a bare LF (the file's newline style is
     fixed by its first header, so that line is not a header line)."""
-    data, idx = build_lf(ctx, optstr)
+    data, idx = build_lf(ctx, optstr, ws)
 
     if crlf:
         # every header line ends in CRLF; content keeps its LF
@@ -156,27 +156,29 @@ def _build(ctx, optstr, crlf=False, own_lf=False):
             if own_lf and n == target:
                 out.append(line + b'\n')
             else:
-                out.append(line + (b'\r\n' if line.startswith(b'#')
-                                   else b'\n'))
+                out.append(line + (b'\r\n' if line.startswith(b'#') or
+                                   n == target else b'\n'))
 
         data = b''.join(out)
 
     return data, idx
 
 
-def build_lf(ctx, optstr):
+def build_lf(ctx, optstr, ws=b''):
+    """ws: whitespace put in front of the header in question (such a line
+    is not a header line)."""
     H = b'#diffx: encoding=utf-8, version=1.0\n'
     M = b'#...meta: format=json, length=9\n{"k": 1}\n'
 
     if ctx == 'main':
-        return (b'#diffx:' + optstr + b'\n#.change:\n#..file:\n' + M, 0)
+        return (ws + b'#diffx:' + optstr + b'\n#.change:\n#..file:\n' + M, 0)
     elif ctx == 'change':
-        return (H + b'#.change:' + optstr + b'\n#..file:\n' + M, 1)
+        return (H + ws + b'#.change:' + optstr + b'\n#..file:\n' + M, 1)
     elif ctx == 'file':
-        return (H + b'#.change:\n#..file:' + optstr + b'\n' + M, 2)
+        return (H + b'#.change:\n' + ws + b'#..file:' + optstr + b'\n' + M, 2)
     else:
-        return (H + b'#.change:\n#..file:\n' + M + b'#.change:' + optstr +
-                b'\n#..file:\n' + M, 4)
+        return (H + b'#.change:\n#..file:\n' + M + ws + b'#.change:' +
+                optstr + b'\n#..file:\n' + M, 4)
 
 
 def generate(rng, tier, cls):
@@ -190,6 +192,8 @@ def generate(rng, tier, cls):
             'shadow': rng.below(50) if rng.chance(0.08) else None,
             'blanks': rng.choice([0] * 20 + [1, 3, 200, 1200, 5000]),
             'lead': rng.choice([0] * 12 + [1, 2]),
+            'hdr_ws': rng.choice([None] * 15 + ['20', '09', '2020', '0b']),
+            'blanks2': rng.randint(80, 300),
             'block_size': rng.choice([None, None, 1, 5, 97])}
 
 
@@ -263,9 +267,21 @@ def execute(scn, L):
     own_lf = crlf and bool(scn.get('own_lf'))
     blanks = scn.get('blanks') if isinstance(scn.get('blanks'), int) and \
         0 <= scn.get('blanks') <= 6000 else 0
+
+    if scn.get('hdr_ws') and not blanks and \
+       isinstance(scn.get('blanks2'), int) and 0 < scn['blanks2'] <= 6000:
+        # whitespace in front of the header after a run of blank lines of
+        # drawn length (any alignment with the read-ahead blocks)
+        blanks = scn['blanks2']
+    ws = b''
+
+    if scn.get('hdr_ws') in ('20', '09', '2020', '0b'):
+        ws = bytes.fromhex(scn['hdr_ws'])
+
     data, idx = build(ctx, optstr, crlf, own_lf, blanks,
-                      scn.get('lead') if scn.get('lead') in (1, 2) else 0)
-    line = build_lf(ctx, optstr)[0].split(b'\n')[
+                      scn.get('lead') if scn.get('lead') in (1, 2) else 0,
+                      ws)
+    line = build_lf(ctx, optstr, ws)[0].split(b'\n')[
         {'change': 1, 'file': 2, 'change2': 5}[ctx]]
     # in a CRLF file the line the grammar sees is the text before the CRLF
     if own_lf and line.endswith(b'\r'):
